@@ -3,11 +3,13 @@
     c02 surf <surface tree, prefix>         -> wf ; raw tokens ; rpn ; tree ; emitted python tokens ; pyParse ; toPy ; spec flags
     c02 raw  <raw tokens>                   -> rpn ; tree ; emitted python tokens ; pyParse
     c02 py   <python tokens>                -> pyParse
-    c02 val  <k> <addr>=<value> … <surface tree>   -> value of the tree (simple exact evaluator, `?` = not decided here)
+    c02 val  <k> <addr>=<value> … <surface tree>   -> value of the tree under `opsSem` (C10's Ops model); `?` = outside
+                                               the domain, leading `~` = approximate (C pow / integers beyond 2^53)
   Text travels as decimal code points joined by ','.  Trusted glue, exercised by every correspondence run.
 -/
 import Pycel.Model.Proto
 import Pycel.Model.Formula
+import Pycel.Model.Formula.OpsSem
 namespace Pycel.Drv.C02
 open Pycel Pycel.Formula
 
@@ -154,102 +156,17 @@ def decSurfAll (ts : List String) : Option Surf :=
   | some (s, []) => some s
   | _ => none
 
-/-! ### a small exact evaluator (the operator semantics proper belong to C10; `unk` = not decided here) -/
+/-! ### value of a tree under C10's operator semantics (Model/Formula/OpsSem.lean) -/
 
-inductive V where
-  | num (q : Rat) | str (s : List Char) | bool (b : Bool) | err (e : Err) | blank | unk
-  deriving Inhabited
+def encRV : RV → String
+  | none => "?"
+  | some (v, approx) => (if approx then "~" else "") ++ v.enc
 
-def errOfText? (s : List Char) : Option Err := Err.all.find? (fun e => errText e == s)
-
-def natDigits (n : Nat) : List Char := (toString n).toList
-
-def numText (q : Rat) : Option (List Char) :=
-  if q.den = 1 then some (if q.num < 0 then '-' :: natDigits q.num.natAbs else natDigits q.num.natAbs) else none
-
-def ratPow (q : Rat) (n : Nat) : Rat := (List.replicate n q).foldl (· * ·) 1
-
-def arith (op : PyOp) (a b : Rat) : V :=
-  match op with
-  | .add => .num (a + b) | .sub => .num (a - b) | .mul => .num (a * b)
-  | .div => if b = 0 then .err .div0 else .num (a / b)
-  | .pow =>
-    if b.den ≠ 1 then .unk
-    else if b.num.natAbs > 40 then .unk
-    else if a = 0 ∧ b.num ≤ 0 then .unk
-    else if b.num ≥ 0 then .num (ratPow a b.num.natAbs) else .num (1 / ratPow a b.num.natAbs)
-  | .eq => .bool (a = b) | .ne => .bool (a ≠ b) | .lt => .bool (a < b) | .gt => .bool (a > b)
-  | .le => .bool (a ≤ b) | .ge => .bool (a ≥ b)
-  | .bitand => .unk
-
-def catText : V → Option (List Char)
-  | .num q => numText q
-  | .str s => some s
-  | .blank => some []
-  | .bool b => some (if b then "TRUE".toList else "FALSE".toList)
-  | _ => none
-
-def numsOf : List V → Option (List Rat)
-  | [] => some []
-  | .num q :: r => (numsOf r).map (q :: ·)
-  | _ => none
-
-def sem (env : List (List Char × V)) : Sem V where
-  num t := match numValue? t with | some q => .num q | none => .unk
-  str s := match errOfText? s with | some e => .err e | none => .str s
-  name s := if s = nmTrue then .bool true else if s = nmFalse then .bool false else if s = nmNone then .blank else .unk
-  neg v := match v with | .num q => .num (-q) | .err e => .err e | _ => .unk
-  bin op l r :=
-    match l, r with
-    | .unk, _ => .unk
-    | _, .unk => .unk
-    | .err e, _ => .err e
-    | _, .err e => .err e
-    | .num a, .num b => arith op a b
-    | l, r =>
-      if op = .bitand then
-        match catText l, catText r with
-        | some a, some b => .str (a ++ b)
-        | _, _ => .unk
-      else .unk
-  call f args :=
-    if args.any (fun v => match v with | .unk => true | _ => false) then .unk
-    else if f = "abs_".toList ∧ args.length ≠ 1 then .unk
-    else if f = nmC then
-      match args with
-      | [.str a] => (env.lookup a).getD .blank
-      | _ => .unk
-    else match args.find? (fun v => match v with | .err _ => true | _ => false) with
-      | some e => if args.any (fun v => match v with | .unk => true | _ => false) then .unk else
-                  (if f = "sum_".toList ∨ f = "max_".toList ∨ f = "min_".toList ∨ f = "abs_".toList then e else .unk)
-      | none =>
-        match numsOf args with
-        | some (q :: qs) =>
-          if f = "sum_".toList then .num ((q :: qs).foldl (· + ·) 0)
-          else if f = "max_".toList then .num (qs.foldl (fun a b => if a < b then b else a) q)
-          else if f = "min_".toList then .num (qs.foldl (fun a b => if b < a then b else a) q)
-          else if f = "abs_".toList ∧ qs.isEmpty then .num (if q < 0 then -q else q)
-          else .unk
-        | _ => .unk
-  tuple _ := .unk
-
-def encV : V → String
-  | .num q => encRat q
-  | .str s => encText s
-  | .bool b => if b then "b:1" else "b:0"
-  | .err e => "e:" ++ e.tag
-  | .blank => "n:0/1"         -- eval_func: `ret_val if ret_val not in (None, EMPTY) else 0`
-  | .unk => "?"
-
-def decV? (tok : String) : Option V :=
-  (Val.dec? tok).map fun v => match v with
-    | .num q => .num q | .str s => .str s | .bool b => .bool b | .blank => .blank | .err e => .err e
-
-def decEnv : Nat → List String → Option (List (List Char × V) × List String)
+def decEnv : Nat → List String → Option (List (List Char × Val) × List String)
   | 0, ts => some ([], ts)
   | k + 1, t :: ts =>
     match t.splitOn "=" with
-    | [a, v] => (uncps? a).bind fun a => (decV? v).bind fun v => (decEnv k ts).map fun (e, r) => ((a, v) :: e, r)
+    | [a, v] => (uncps? a).bind fun a => (Val.dec? v).bind fun v => (decEnv k ts).map fun (e, r) => ((a, v) :: e, r)
     | _ => none
   | _, _ => none
 
@@ -298,7 +215,7 @@ def handle : List String → String
       | some (env, r) =>
         match decSurfAll r with
         | none => "!bad-surf"
-        | some s => encV (evalExcel (sem env) (erase s))
+        | some s => encRV (finalValue (evalExcel (opsSem env) (erase s)))
   | _ => "!bad-op"
 
 end Pycel.Drv.C02
